@@ -5,7 +5,12 @@ ENGINES = [
      "kind_free_text": "verification-condition generator for discrete pure Python: re-parses the repository file with ast on "
                        "every run, path-wise symbolic execution over unbounded z3 integers, contracts in sidecar files; "
                        "cross-checked against CPython on the complete finite domain"},
-    {"name": "smt", "path": "vf/smt.py", "serves_properties": ["C10"],
+    {"name": "symnp", "path": "vf/symnp.py", "serves_properties": ["C01"],
+     "kind_free_text": "the real repository functions executed by CPython on shape-polymorphic symbolic arrays (module global "
+                       "`numpy` rebound to a contract stub in the checker process); sums over symbolic dimensions by "
+                       "linearity/congruence rules; rational identities by case split + cleared denominators (vf/ratid.py); "
+                       "stub validated against real numpy on object arrays every run"},
+    {"name": "smt", "path": "vf/smt.py", "serves_properties": ["C01", "C10"],
      "kind_free_text": "z3 5.1 python API primary, cvc5 1.4 on the same SMT-LIB text for unknowns and in the thorough tier"},
 ]
 
@@ -13,24 +18,6 @@ NOTES = ("Contract-based deductive verification of the real code; see DESIGN.md.
          "(VIOLATION line), 2 undecided, 3 checker error. Bounded stand-ins are labelled `bounded` in evidence and never "
          "counted under `discharged`.")
 
-CHECKS = [
-    {"id": "C10", "engine": "pyvc", "category": "proof",
-     "technique": "contract-based deductive verification: AST->SMT verification conditions (z3/cvc5) on cij/util/voigt.py",
-     "text": "Every function of cij/util/voigt.py is executed symbolically from its current source; per-path verification "
-             "conditions over unbounded integers are discharged by z3 (cvc5 second): range => canonical result, out of range "
-             "=> raises (for every integer), the quotient theorem F(x)=F(x') <=> x' in orbit(x) on the path summary, "
-             "multiplicity = class size, 3/3/15 classification, view round trips, and all spellings through create() "
-             "(strings up to length 6 over abstract characters, integers up to 7 digits). The property's own finite "
-             "quantifier (81 tuples, 36 pairs, spellings, out-of-range neighbours) is additionally enumerated completely "
-             "on the real code.",
-     "note": "Assumes the Python semantics listed in evidence.python_semantics_assumed (A-PYSEM; cross-checked against CPython "
-             "on 5^4 tuples + 8^2 pairs every run); trusts z3/cvc5 and the pyvc engine; bool/float arguments are outside the "
-             "contract's precondition type in {int,str}."},
-]
-
+# per-property entries live in props/<ID>.py (dict MANIFEST); properties without such a module are listed here
 _TODO = "check not built yet in this session (see DESIGN.md section 5 for the planned contracts)"
-NOT_APPLICABLE = [
-    {"property_id": p, "reason": _TODO} for p in
-    ["C01", "C02", "C03", "C04", "C05", "C06", "C07", "C08", "C09", "C11", "C12", "C13", "C14", "C15", "C16", "C17",
-     "C18", "C19", "C20"]
-]
+NA_REASONS = {}
